@@ -52,6 +52,13 @@ pub enum Act {
     LTimerSet,
     LTimerClear,
     LTimerFire,
+    /// legacy task: request future built (token in the operation), never awaited, event, end
+    LReqUnpolled,
+    /// legacy task: select(ready(()), request) - the request is never polled
+    LSelUnpolled,
+    /// legacy notify_after + clear(id) in one update (through a mapped Time capability whose
+    /// mapping closure owns a token)
+    LTimerSetCleared,
 }
 
 #[derive(Clone, Copy, Debug, PartialEq, Eq, PartialOrd, Ord, Serialize)]
@@ -217,6 +224,11 @@ impl Ref {
             CtP::Orphan => v.push(Act::CTimerFire),
         }
         if bridge {
+            v.push(Act::LReqUnpolled);
+            v.push(Act::LSelUnpolled);
+            if matches!(self.lt, LtP::None | LtP::DoneKept) {
+                v.push(Act::LTimerSetCleared);
+            }
             match self.lt {
                 LtP::None => v.push(Act::LTimerSet),
                 LtP::Live => {
@@ -347,6 +359,15 @@ impl Ref {
                     }
                     _ => unreachable!(),
                 }
+            }
+            // nothing reaches the shell, the task's event is applied, nothing stays behind
+            Act::LReqUnpolled | Act::LSelUnpolled => sat(&mut self.view.got),
+            Act::LTimerSetCleared => {
+                // only the Clear notification reaches the shell; the timer reports Cleared
+                h.notes += 1;
+                sat(&mut self.view.timers_done);
+                self.lt = LtP::None;
+                self.view.ltimer = false;
             }
             Act::LTimerFire => {
                 if self.lt != LtP::Orphan {
@@ -594,6 +615,9 @@ impl BridgeHost {
             }
             Act::LTimerSet => self.event(CEvent::LTimerSet),
             Act::LTimerClear => self.event(CEvent::LTimerClear),
+            Act::LReqUnpolled => self.event(CEvent::LReqUnpolled(Token::new())),
+            Act::LSelUnpolled => self.event(CEvent::LSelUnpolled(Token::new())),
+            Act::LTimerSetCleared => self.event(CEvent::LTimerSetCleared),
             Act::LTimerFire => {
                 let (id, t) = self.lt_req.take().ok_or("no legacy timer request")?;
                 self.answer(id, &TimeResponse::DurationElapsed { id: t })
@@ -757,7 +781,14 @@ impl DirectHost {
                 self.settle();
                 res
             }
-            Act::ReqL | Act::LTimerSet | Act::LTimerClear | Act::LTimerFire | Act::BadAnswer(_) => {
+            Act::ReqL
+            | Act::LTimerSet
+            | Act::LTimerClear
+            | Act::LTimerFire
+            | Act::LReqUnpolled
+            | Act::LSelUnpolled
+            | Act::LTimerSetCleared
+            | Act::BadAnswer(_) => {
                 Err("action not available on the direct host".into())
             }
         }
@@ -914,6 +945,9 @@ impl CoreHost {
             }
             Act::LTimerSet => self.event(CEvent::LTimerSet),
             Act::LTimerClear => self.event(CEvent::LTimerClear),
+            Act::LReqUnpolled => self.event(CEvent::LReqUnpolled(Token::new())),
+            Act::LSelUnpolled => self.event(CEvent::LSelUnpolled(Token::new())),
+            Act::LTimerSetCleared => self.event(CEvent::LTimerSetCleared),
             Act::LTimerFire => {
                 let mut r = self.lt_req.take().ok_or("no legacy timer request")?;
                 let id = DirectHost::timer_id(&r);
@@ -1624,7 +1658,7 @@ pub fn run(tier: Tier, args: &[String]) -> i32 {
         "closed": closed_json,
         "state_cap": cap,
         "hosts": hosts_json,
-        "action_alphabet": "ReqC (Command-API one-shot), ReqL (legacy one-shot), ReqJ (task: spawn(child awaiting a shell request); join_handle.await; event), ReqT (request.then_stream(finite local stream).then_send), ReqU (request.then_stream consumed by hand inside Command::new), ReqV (request.then_request.then_stream.then_send) - each with answer and drop / undecodable answer at every position, ReqS (one task awaiting select over two shell requests), ReqA (self-aborting command: task B request -> event, task A request -> the command's own AbortHandle, no output), Respond(k) for every outstanding one-shot k (also the orphaned member of a finished select), BadAnswer(k): an undecodable answer to the k-th outstanding one-shot on the Bridge host (must be rejected; the request is used up; followed by one no-op event), Drop(k): the shell drops the k-th outstanding one-shot unresolved (Command-API requests on both hosts, legacy requests on the typed-Core host) (direct and typed-Core hosts; on the Core host followed by one no-op event = one further core call; the bridge cannot drop), Sub, Unsub (AbortHandle kept in the model), Item (stream item; also after unsubscribe and after the task ended), Render, CTimerSet / CTimerClear (TimerHandle) / CTimerFire (answer NotifyAfter, also the orphaned one) / CTimerCleared (answer Clear), LTimerSet / LTimerClear (also after the timer finished) / LTimerFire; after EVERY explored path the host is dropped",
+        "action_alphabet": "ReqC (Command-API one-shot), ReqL (legacy one-shot), ReqJ (task: spawn(child awaiting a shell request); join_handle.await; event), ReqT (request.then_stream(finite local stream).then_send), ReqU (request.then_stream consumed by hand inside Command::new), ReqV (request.then_request.then_stream.then_send) - each with answer and drop / undecodable answer at every position, ReqS (one task awaiting select over two shell requests), ReqA (self-aborting command: task B request -> event, task A request -> the command's own AbortHandle, no output), Respond(k) for every outstanding one-shot k (also the orphaned member of a finished select), BadAnswer(k): an undecodable answer to the k-th outstanding one-shot on the Bridge host (must be rejected; the request is used up; followed by one no-op event), Drop(k): the shell drops the k-th outstanding one-shot unresolved (Command-API requests on both hosts, legacy requests on the typed-Core host) (direct and typed-Core hosts; on the Core host followed by one no-op event = one further core call; the bridge cannot drop), Sub, Unsub (AbortHandle kept in the model), Item (stream item; also after unsubscribe and after the task ended), Render, CTimerSet / CTimerClear (TimerHandle) / CTimerFire (answer NotifyAfter, also the orphaned one) / CTimerCleared (answer Clear), LTimerSet / LTimerClear (also after the timer finished) / LTimerFire; legacy request futures that are created and never polled: LReqUnpolled (built, not awaited, event, end), LSelUnpolled (select(ready, request)), LTimerSetCleared (notify_after + clear(id) in one update through a mapped Time capability whose mapping closure owns a token) - none leaves outstanding work; after EVERY explored path the host is dropped",
         "app_bounds": {"configurations (max outstanding one-shots, counters saturate at)": configs.iter().map(|c| (c.max_oneshots, c.sat)).collect::<Vec<_>>(), "live_subscriptions": 1, "command_api_timers": 1, "legacy_timers": 1},
         "state_key": "(reference: outstanding one-shots with their API in issue order, subscription phase, timer phases, expected view; gauges: registry once/many entries, executor task slots | live commands, sum of Command::verif_live_tasks, queued spawns/wake-ups/effects/events, cleared-timer-set size relative to the start of the path, live drop-tokens). Projected out because a listed finding makes them unbounded (each reported): `Never` registry entries (K3), cleared-set ids of timers cleared after they finished (K4), executor slots and tokens of legacy tasks whose request was dropped (accepted only when exactly one slot per dropped legacy request is stuck)",
         "oracle": "in every reachable state: registry once <= outstanding one-shot requests the shell holds, many <= subscriptions the shell has not been told are finished, never == 0; executor tasks / live commands / command tasks <= live pieces of work; cleared set <= cleared pending timers; live tokens <= tokens owned by live tasks (+ payloads of requests the harness holds); all queues empty after the call; after dropping the host 0 tokens; view == reference view; gauge BELOW the reference = reference error, reported under reference/*",
